@@ -68,9 +68,13 @@ class LongPoll(object):
         if response.response_type == ResponseType.NO_CHANGE:
             logging.debug("No Change in config.")
             self.config.tracepoints.update_no_change(response.ts_nanos)
-        else:
+        elif response.response_type == ResponseType.UPDATE:
             self.config.tracepoints.update_new_config(response.ts_nanos, response.current_hash,
                                                       convert_response(response.response))
+        else:
+            # the response type is an open enum on the wire: an answer of a kind we do not know is not an update (it
+            # would replace the config we have with the empty one it carries), the last config stays in force
+            logging.warning("Unknown poll response type %s, keeping the current config.", response.response_type)
 
     def shutdown(self):
         """Shutdown the timer."""
